@@ -52,7 +52,7 @@ def cases(tier, seed):
         yield {"spec": spec, "n": n, "off": int(rng.choice([0, 1, -40, 13, 10 ** 6])), "idx": "range" if rng.random() < 0.5 else "int",
                "fh": FHS[int(rng.integers(0, len(FHS)))], "fh_in": ["fit", "predict", "both"][int(rng.integers(0, 3))],
                "shift": int(rng.choice([-40, 1, 13, 10 ** 6])), "updates": [[], [True], [False], [True, False], [False, False, True]][int(rng.integers(0, 5))],
-               "series": ["seasonal", "walk"][int(rng.integers(0, 2))], "dseed": int(rng.integers(0, 2 ** 31))}
+               "series": ["seasonal", "walk"][int(rng.integers(0, 2))], "dseed": int(rng.integers(0, 2 ** 31)), "integer": bool(rng.random() < 0.2)}
 
 
 def _vals_close(a, b):
@@ -91,7 +91,9 @@ def run_case(case, ctx):
     spec, n, off, fh = case["spec"], case["n"], case["off"], case["fh"]
     rng = np.random.default_rng([case["dseed"], 33])
     total = n + 3 * len(case["updates"])
-    full = zoo.make_series(rng, total, positive=True, off=off, kind=case["series"], index=case["idx"])
+    full = zoo.make_series(rng, total, positive=True, off=off, kind=case["series"], index=case["idx"], integer=bool(case.get("integer")))
+    if case.get("integer"):
+        ctx.tag("integer-series")
     y = full.iloc[:n]
     need_fit = zoo.requires_fh_in_fit(spec)
     fh_in = "fit" if (need_fit and case["fh_in"] == "predict") else case["fh_in"]
